@@ -756,12 +756,15 @@ def check_C12(sc, v, tier, seed, replay):
     skel = []
     for i in range(n):
         ies = [x for x in opt_ieis if rnd.random() < (0.5 if i % 3 else (0.0 if i % 6 == 0 else 1.0))]
+        if i % 8 == 0:
+            # the long QoS rule cases: all optional IEs (the 5GSM cause in front of the address among them), none, and a random subset, in turn
+            ies = [list(opt_ieis), [], ies][(i // 8) % 3]
         big = lambda x: online_num(x)
         skel.append({"id": i, "psi": rnd.randrange(1, 16), "pti": rnd.randrange(1, 255), "hdr": rnd.choice([2, 4]), "dlCount": rnd.randrange(1 << 24),
                      "ies": ies, "ip": [rnd.choice([0, 10, 255, rnd.randrange(256)]) for _ in range(4)],
                      "teid": rnd.choice([[0, 0, 0, 0], [0, 0, 0, 1], [128, 0, 0, 0], [255, 255, 255, 255], [rnd.randrange(256) for _ in range(4)]]),
                      "upf": [rnd.randrange(256) for _ in range(4)],
-                     "qosRules": [rnd.randrange(256) for _ in range(rnd.choice([0, 1, 255, 256, 4000] if i % 8 == 0 else [0, 1, 9, 31, 127, 128]))],
+                     "qosRules": [rnd.randrange(256) for _ in range([4000, 256, 255, 1, 0][(i // 8) % 5] if i % 8 == 0 else rnd.choice([0, 1, 9, 31, 127, 128]))],
                      "qosFlows": [rnd.randrange(256) for _ in range(rnd.choice([3, 6, 60, 300]))],
                      "withAmbr": rnd.random() < 0.6,
                      # values of the fixed part and of the leading optional IEs that look like later element identifiers (29 PDU address, 59 cause,
